@@ -43,7 +43,7 @@ def pinch_analysis_service(data: Any, project_name: str = "Project", is_return_f
         tables ready for serialisation.
     """
     # Validate request data using Pydantic model
-    request_data = TargetInput.model_validate(data)
+    request_data = TargetInput.model_validate(data).model_copy(deep=True)
 
     # Formulate the top level zone with all subzones and approperiate input data
     master_zone = prepare_problem(
